@@ -27,7 +27,7 @@ ENCODED = ["twisted.protocols.ftp:toSegments", "twisted.protocols.ftp:FTPAnonymo
            "twisted.protocols.ftp:FTPShell.removeDirectory", "twisted.protocols.ftp:FTPShell.removeFile",
            "twisted.protocols.ftp:FTPShell.rename", "twisted.protocols.ftp:FTPAnonymousShell.access",
            "twisted.python.filepath:AbstractFilePath.descendant", "twisted.python.filepath:FilePath.child"]
-BOUNDS = {"quick": {"n": 5, "c": 1, "s": 4}, "thorough": {"n": 7, "c": 2, "s": 6}}
+BOUNDS = {"quick": {"n": 5, "c": 1, "s": 4}, "thorough": {"n": 6, "c": 2, "s": 6}}
 B = {}
 BOUNDS_TEXT = ("root /r/ab (sibling /r/abc in mind); inductive step: working directory of <= 2 arbitrary *valid* "
                "segments of <= c characters each (any value toSegments can have produced) and a path argument of "
